@@ -30,8 +30,22 @@ type rbVictim struct {
 	wc   *WTClient
 	rec  *SockRec
 	reqs []*Resp
+	must []*Resp // polls issued with data already buffered for them: they have to be answered
 	// upgrade kinds: the candidate
 	cand *WSClient
+}
+
+// appBatch hands n messages of the given size to the victim's session from an application goroutine.
+func (v *rbVictim) appBatch(n, size int) {
+	if v.rec == nil {
+		return
+	}
+	rec := v.rec
+	vsched.GoNamed("app-batch", func() {
+		for i := 0; i < n; i++ {
+			rec.Sock.Send(types.NewStringBufferString(strings.Repeat("p", size)), nil, nil)
+		}
+	})
 }
 
 func (v *rbVictim) post(body []byte, ct string) int {
@@ -106,6 +120,9 @@ func rbPollingInputs(eio int) []rbInput {
 			v.reqs = append(v.reqs, v.w.Request("GET", "/engine.io/?EIO=4&transport=polling&sid="+v.pc.Sid, ReqOpt{Hdr: WSUpgradeHeaders(false), Hijackable: true}))
 			return 0
 		}},
+		{"poll-accept-encoding-x-gzip-with-data", func(v *rbVictim) int { return v.pollAE("x-gzip") }},
+		{"poll-accept-encoding-compress-star", func(v *rbVictim) int { return v.pollAE("compress, *;q=0.1") }},
+		{"poll-accept-encoding-malformed", func(v *rbVictim) int { return v.pollAE(",;q=,gzip;q=abc, ;;") }},
 		{"second-poll", func(v *rbVictim) int {
 			v.reqs = append(v.reqs, v.pc.Get())
 			return 0
@@ -118,6 +135,31 @@ func rbPollingInputs(eio int) []rbInput {
 		}},
 	}
 	return in
+}
+
+// pollAE: the application has 2000 bytes buffered for the session, the client polls with an unusual
+// Accept-Encoding header; the poll must be answered.
+func (v *rbVictim) pollAE(ae string) int {
+	if v.rec != nil && v.rec.Count("close") == 0 {
+		rec := v.rec
+		vsched.GoNamed("app-batch", func() {
+			// (when an earlier poll of the script is still outstanding the data goes out with that one)
+			free := true
+			for _, q := range v.reqs {
+				if strings.HasPrefix(q.Desc, "GET") && q.Conn == nil && !q.wrote && !q.Returned {
+					free = false
+				}
+			}
+			rec.Sock.Send(types.NewStringBufferString(strings.Repeat("p", 2000)), nil, nil)
+			h := map[string]string{"Accept-Encoding": ae}
+			r := v.w.Request("GET", v.pc.url(true), ReqOpt{Hdr: h})
+			v.reqs = append(v.reqs, r)
+			if free {
+				v.must = append(v.must, r)
+			}
+		})
+	}
+	return len(ae)
 }
 
 func rbFrameInputs() []rbInput {
@@ -219,6 +261,35 @@ func rbFrameInputs() []rbInput {
 				v.wc.SendRaw([]byte{0x7f, 0xff, 0xff, 0xff, 0xff, 0xff, 0xff, 0xff, 0xff, 'x'})
 			}
 			return 10
+		}},
+		{"drop-with-app-batch-in-flight", func(v *rbVictim) int {
+			// the peer goes away while the application has a batch of several frames on its way out
+			if v.cand == nil {
+				v.appBatch(4, 3000)
+			}
+			if c := v.anyWS(); c != nil {
+				c.Drop()
+			} else if v.wc != nil {
+				v.wc.Stream.PeerClose()
+			}
+			if v.cand == nil {
+				v.appBatch(3, 10)
+			}
+			return 0
+		}},
+		{"close-frame-with-app-batch-in-flight", func(v *rbVictim) int {
+			if v.cand == nil {
+				v.appBatch(4, 3000)
+			}
+			if c := v.anyWS(); c != nil {
+				c.SendClose(1001, "going away")
+			} else if v.wc != nil {
+				v.wc.Stream.PeerClose()
+			}
+			if v.cand == nil {
+				v.appBatch(3, 10)
+			}
+			return 11
 		}},
 		{"drop", func(v *rbVictim) int {
 			if c := v.anyWS(); c != nil {
@@ -405,6 +476,11 @@ func rbBody(kind string, script []rbInput, offenders map[string]bool) vsched.Bod
 			}
 			x.Fail("handler-stuck%s: %s was never answered, its handler is still blocked (session %s) (%s)", clsOf("handler-stuck"), r.Desc, stateOf(v.rec), id)
 		}
+		for _, r := range v.must {
+			if !r.wrote && !r.Returned && v.rec != nil && v.rec.Count("close") == 0 {
+				x.Fail("handler-stuck%s: %s was issued with data buffered for it and was never answered although the session is open (%s)", clsOf("handler-stuck"), r.Desc, id)
+			}
+		}
 		if pendingPolls > 1 {
 			x.Fail("handler-stuck%s: %d polls of one session outstanding (%s)", clsOf("handler-stuck"), pendingPolls, id)
 		}
@@ -451,6 +527,16 @@ func rbBody(kind string, script []rbInput, offenders map[string]bool) vsched.Bod
 		}
 		x.Outcome = fmt.Sprintf("victim=%s work=%d", stateOf(v.rec), work/1000)
 	}
+}
+
+// overlapped: another poll of the script was still outstanding when r was issued (r is then refused, not answered with data)
+func (v *rbVictim) overlapped(r *Resp) bool {
+	for _, q := range v.reqs {
+		if q != r && strings.HasPrefix(q.Desc, "GET") && q.Conn == nil && !q.wrote && !q.Returned {
+			return true
+		}
+	}
+	return false
 }
 
 func stateOf(r *SockRec) string {
